@@ -78,6 +78,11 @@ def run(ctx):
   cc = fd.class_consts(ci)
   for name in ('SIG_TO_KEYS', 'KEY_TO_SIG', 'KEY_TO_PROTO_KEY', 'SHARPS_ORDER', 'FLATS_ORDER', 'ABC_NOTE_TO_MIDI', 'KEY_PATTERN', 'NOTE_PATTERN'):
     ctx.require(name in cc, 'ABCTune.%s could not be folded' % name)
+  # location-independent rules first: an anchored rule that gives up later must not mask them
+  zero_is_a_value(ctx, ci)
+  from sa import state
+  n = state.check_instance_state(ctx, ci, 'STATE/per-tune')
+  ctx.require(n >= 2, 'ABCTune: fewer in-place-mutated attributes than confirmed by hand (%d)' % n)
   tables(ctx, ci, cc)
   modes(ctx, ci, cc)
   tokens(ctx, ci, cc)
@@ -86,9 +91,6 @@ def run(ctx):
   accidentals(ctx, ci)
   broken_rhythm(ctx, ci)
   unit_length(ctx, ci)
-  from sa import state
-  n = state.check_instance_state(ctx, ci, 'STATE/per-tune')
-  ctx.require(n >= 2, 'ABCTune: fewer in-place-mutated attributes than confirmed by hand (%d)' % n)
 
 
 def _ret_pos(i, n):
@@ -417,6 +419,33 @@ def keyerrors(ctx, ci, cc):
       if isinstance(n, ast.Call) and dotted(n.func) in ('int', 'Fraction'):
         cnt += 1
   ctx.unanalysed.append('%d subscript / int() / Fraction() sites in ABCTune are potential implicit raisers that this open-world analysis does not decide' % cnt)
+
+
+def zero_is_a_value(ctx, ci):
+  """A natural sign stores the pitch change 0 for its letter, and 0 must override the key signature for the rest of the bar.
+  So a value read from the bar-accidental table must never be used for its truth value (`x or y`, `if x`, `not x`): that
+  would treat the stored natural as "nothing stored".  Location-independent: every method of ABCTune is scanned."""
+  n = 0
+  for m in ci.methods.values():
+    pm = U.parents(m.node)
+    for node in ast.walk(m.node):
+      read = None
+      if isinstance(node, ast.Call) and isinstance(node.func, ast.Attribute) and node.func.attr == 'get' and norm_text(node.func.value).endswith('._bar_accidentals'):
+        read = node
+      elif isinstance(node, ast.Subscript) and isinstance(node.ctx, ast.Load) and norm_text(node.value).endswith('._bar_accidentals'):
+        read = node
+      if read is None:
+        continue
+      n += 1
+      par = pm.get(id(read))
+      truthy = (isinstance(par, ast.BoolOp) and read in par.values[:-1] if isinstance(par, ast.BoolOp) and isinstance(par.op, ast.Or) else False) or \
+          (isinstance(par, ast.BoolOp) and isinstance(par.op, ast.And)) or \
+          (isinstance(par, (ast.If, ast.While, ast.IfExp)) and par.test is read) or \
+          (isinstance(par, ast.UnaryOp) and isinstance(par.op, ast.Not))
+      ctx.ob('ACC/zero-is-a-value', m, read, not truthy, 'the stored pitch change is used as a number' if not truthy else
+             'the pitch change read from the bar-accidental table (%s) is tested for truth: a natural (stored as 0) falls through to the key signature' % norm_text(par)[:80],
+             construct='bar accidental %s not used as a truth value' % norm_text(read), definite=True)
+  ctx.require(n >= 1, 'no read of the bar-accidental table found in ABCTune')
 
 
 def accidentals(ctx, ci):
